@@ -163,6 +163,29 @@ def shape_cases(col, seed):
         col.add(None if after == before else {"sig": "native::simulate::shapes", "what": f"per_obs={per_obs}: shapes of the current values {before} became {after}", "input": {"per_obs": per_obs, "seed": seed}})
 
 
+def integer_start_value_case(col, auto_update, seed):
+    """variables whose CURRENT value is integer-typed (Var(0, ...), int32 zeros): the current value only gives the shape of the draw - the new value is the
+    draw from the distribution itself (same key, same parameters), and descendants are drawn at it"""
+    import tensorflow_probability.substrates.jax.distributions as tfd_
+    log_tau = lsl.param(0, lsl.Dist(tfd_.Normal, loc=0.0, scale=2.0), name="log_tau")
+    tau = lsl.Var(lsl.Calc(jnp.exp, log_tau), name="tau")
+    beta = lsl.param(jnp.zeros(4, dtype=jnp.int32), lsl.Dist(tfd_.Normal, loc=0.0, scale=tau), name="beta")
+    model = lsl.GraphBuilder().add(beta).build_model()
+    model.auto_update = auto_update
+    key = jax.random.PRNGKey(seed)
+    model.simulate(key)
+    model.update()
+    lt, be = np.asarray(model.vars["log_tau"].value), np.asarray(model.vars["beta"].value)
+    # every child key of the seed is tried: which variable gets which child is not specified
+    kids = list(jax.random.split(key, 2))
+    want_lt = [float(tfd_.Normal(0.0, 2.0).sample((), k)) for k in kids]
+    ok_lt = any(np.isclose(float(lt), w, rtol=1e-5) for w in want_lt)
+    want_be = [np.asarray(tfd_.Normal(0.0, np.exp(np.float32(lt))).sample((4,), k)) for k in kids]
+    ok_be = any(np.allclose(be, w, rtol=1e-5) for w in want_be)
+    col.add(None if ok_lt and ok_be else {"sig": "native::simulate::integer_typed_current_value", "what": f"auto_update={auto_update}: log_tau = {lt!r} (draws of N(0, 2) with the seed's children: {np.round(want_lt, 4).tolist()}), "
+                                          f"beta = {be.tolist()} (draws of N(0, exp(log_tau)): {[w.round(4).tolist() for w in want_be]})", "input": {"auto_update": auto_update, "seed": seed, "current_values": "log_tau = 0 (python int), beta = int32 zeros"}})
+
+
 def independence_case(col, auto_update, seed):
     """every distributed variable is drawn with its OWN child of the seed: models entered with outdated nodes (value assigned while auto-update was off); models built with copy=True (the user's originals stay untouched); simulate(skip=parent) after a stored state was assigned back; shapes kept for per_obs on / off with leading sample, batch and event dimensions; two i.i.d. siblings differ, a child's noise is not its parent's"""
     a = lsl.param(np.zeros(4, np.float32), lsl.Dist(tfd.Normal, loc=0.0, scale=1.0), name="a")
@@ -202,6 +225,11 @@ def bounded(tier, seed):
         col.add({"sig": f"native::simulate::exception::{type(e).__name__}", "what": str(e)[:200], "input": {"scenario": "shapes with per_obs on/off"}})
     for au in (True, False):
         try:
+            integer_start_value_case(col, au, seed + 13)
+        except Exception as e:
+            col.add({"sig": f"native::simulate::exception::{type(e).__name__}", "what": str(e)[:200], "input": {"scenario": "integer-typed current values", "auto_update": au}})
+    for au in (True, False):
+        try:
             independence_case(col, au, seed + 1)
         except Exception as e:
             col.add({"sig": f"native::simulate::exception::{type(e).__name__}", "what": str(e)[:200], "input": {"scenario": "independence", "auto_update": au}})
@@ -222,5 +250,5 @@ def bounded(tier, seed):
     return {"evaluations": col.evals, "distinct_nontrivial": len(combos),
             "rule": (CORE_RULE + "; " + "BOUNDED: models mu ~ N(1000, .001), log_sigma ~ N(-5, .001) (current 3.0), sigma = exp(log_sigma) cached, y (4x3) ~ N(loc, sigma) with loc = mu directly / through a weak "
                      "variable / through a bare Calc / positional mu with keyword scale; both auto-update settings; skip sets {}, {mu}, {y}: values near the NEW parents, shapes kept, skipped "
-                     f"untouched, nothing outdated after update, same seed same result, result independent of auto_update; models entered with outdated nodes (value assigned while auto-update was off); models built with copy=True (the user's originals stay untouched); simulate(skip=parent) after a stored state was assigned back; shapes kept for per_obs on / off with leading sample, batch and event dimensions; two i.i.d. siblings and a child must not share their noise; a hierarchy with a re-parameterised (Var.transform, instance and default bijector) variable in the middle. seeds {seed}.."),
+                     f"untouched, nothing outdated after update, same seed same result, result independent of auto_update; models entered with outdated nodes (value assigned while auto-update was off); models built with copy=True (the user's originals stay untouched); simulate(skip=parent) after a stored state was assigned back; shapes kept for per_obs on / off with leading sample, batch and event dimensions; two i.i.d. siblings and a child must not share their noise; integer-typed current values (python int, int32 zeros) replaced by the distribution's own draws; a hierarchy with a re-parameterised (Var.transform, instance and default bijector) variable in the middle. seeds {seed}.."),
             "samples": [{"variant": "calc", "auto_update": False, "skip": []}], "exhaustive": False, "violations": col.violations}
